@@ -201,7 +201,7 @@ Print Assumptions C38_skip_sound_lists.
     literal text of the format strings; Model/HashBytes.v). The concatenated encoding itself is PROVED injective
     (Proofs/HashBytes.v: enc_inj — it starts with an unterminated raw string, so the proof determines every component
     from the right end), for the program generated from the checked tree (Proofs/HashBytesProg.v: hash_bytes_enc).
-    Hypotheses left: SHA-1 is collision-free, and two facts about strconv.Quote (its output is a double quote, a body
+    Remaining hypotheses: SHA-1 is collision-free, and two facts about strconv.Quote (its output is a double quote, a body
     [qbody s], a double quote): it is injective, and a double quote inside the body is always preceded by a backslash.
     "_partial": strconv.Quote itself is not modelled, and option sets are the typed records [hopts] (every hashed
     field present with its Go type), not arbitrary association lists. *)
